@@ -20,6 +20,9 @@ def scenarios(ctx: Ctx) -> list:
 
 
 def run(ctx: Ctx) -> None:
+    # the operations documented as thread-safe, under every single pre-emption by the other thread (props/threadsfam.py, Trace_Threads.tla)
+    from props import threadsfam
+    threadsfam.run(ctx, 'C05')
     # the lifetime predicates the contracts rest on, at every boundary (spec/Ttl.tla, Oracle_Ttl.tla)
     from props import ttloracle
     ttloracle.run(ctx, 'C05')
